@@ -3,6 +3,7 @@ import struct
 
 ID = "C04"
 PROPS = "Props/C04.v"
+COQ_TIMEOUT = 5400   # Coq build of this property incl. rebuilt dependencies; generous: on a loaded machine a rebuild after an upstream edit took > 1500 s
 GEN = ["sm3iv", "sm3consts"]
 LEGS = [
     {"driver": "c04", "runner": ("sm3", "Extract/ExtractSM3.v", "Sm3_model")},
@@ -37,7 +38,8 @@ TRUSTED_BASE = [
     "translator harness/cmd/gen targets sm3iv (the eight IV words of Reset -> coq/Gen/SM3IV.v) and sm3consts (rotation amounts, T constants, loop bounds, array sizes, index offsets, block/digest size, pad constants, update==update2 flag -> coq/Gen/SM3Consts.v; theorems C04_constants_from_source, C04_model_uses_source_constants)",
     "extraction: ExtrOcamlBasic only (Extract Inductive bool, option, unit, list, prod, sumbool, sumor; Extract Inlined Constant andb, orb); nat/positive/N stay inductive",
     "OCaml 4.13.1 + dune; runner ocaml/sm3/main.ml and ocaml/conv.ml.tmpl (hex and int conversions, the shared LCG byte stream)",
-    "Go drivers harness/cmd/c04 (public API only) and harness/cmd/c04w (hooks sm3.VerifSetState / VerifGetState, /repo/sm3/verif_state_verif.go)",
+    "Go drivers harness/cmd/c04 (public API only) and harness/cmd/c04w (hooks sm3.VerifSetState / VerifGetState / VerifTailOverlaps in /repo/sm3/verif_state_verif.go; gmtls.VerifPrfSM3 / VerifNewMacSM3 in /repo/gmtls/verif_prfsm3_verif.go)",
+    "Agree/KeyModel.v and Agree/PrfSM3.v (C06: function-level model of gmtls/prf.go and prf12_sm3_is_P_SM3) for the chain theorem C04_gmtls_prf_via_hash_ops",
     "Python oracle in checks/c04.py: pure-Python SM3 / HMAC / PBKDF2 (self-tested on GM/T 0004 A.1, A.2 at import); hashlib's OpenSSL sm3 only for streams above 256 KiB when present",
 ]
 ASSUMPTIONS = [
@@ -46,7 +48,8 @@ ASSUMPTIONS = [
     "Go's append and slice expressions behave as SM3Heap.append / reslice_from (in place when len+n <= cap, otherwise a new array of any capacity >= len+n; values read before written); on that heap model non-aliasing is a theorem, not an assumption",
     "the caller does not store into the array the object currently holds (it cannot obtain it: the object never returns or keeps a caller-visible array - theorems (e))",
     "one goroutine per hash object (hash.Hash is not safe for concurrent use)",
-    "crypto/hmac takes its non-marshalable path (sm3.SM3 has no MarshalBinary), crypto/internal/boring disabled",
+    "crypto/internal/boring disabled; which Reset path crypto/hmac takes is recorded on every run (case B: sm3.SM3 is not marshalable) and both paths are proved (MarshalBinary/UnmarshalBinary idealised as exact snapshot/restore)",
+    "gmtls/prf.go pHash and cipher_suites.go tls10MAC.MAC are modelled by hand as operation sequences (SM3/GmtlsOps.v); tied by the F and C cases through the real gmtls code",
 ]
 RULE = ("seeded generator (VERIF_SEED): op histories over Write/Sum/Reset of length <= 8 (quick) / <= 24 (thorough) with write lengths "
         "{0,1,55,56,57,63,64,65,119,120,127,128}, random < 200, random <= 8192 and Sum prefixes {nil, empty cap 64, 3 bytes no spare "
@@ -56,6 +59,8 @@ RULE = ("seeded generator (VERIF_SEED): op histories over Write/Sum/Reset of len
         "partitions of messages into 1..8 writes with cuts biased to block boundaries and empty writes; streams 64 KiB..256 KiB (quick) / "
         "up to 64 MiB (thorough, model up to 4 MiB) in chunk sizes 1, 7, 1021, 4099, 65521; HMAC key x message length grid plus random; "
         "PBKDF2 password lengths {0,1,63,64,65,200} x iterations {1,2,1000} x dkLen {1,31,32,33,100} (1000 iterations: two cases in quick); "
+        "gmtls (white box, hooks): prf12(sm3.New) for output lengths {0,1,12,31,32,33,48,64,65,128,200, random < 300} and secrets of {0,1,48,64,65,100} bytes; "
+        "macSM3/tls10MAC.MAC on one object over 1..5 records with and without extra bytes; "
         "white box: histories written from ONE reused caller buffer with the overlap of the object's tail buffer and that buffer observed after every Write (must be 0), Sum results overwritten by the caller; bit counter set to 0, 2^32-8, 2^32, 2^56, 2^61-64, 2^61, 2^63, 2^64-8.. then writes of {0,1,2,8,55,56,63,64,65,128}. "
         "A case is non-trivial when it hashes at least one byte or observes at least one Sum; distinct = distinct case text")
 
@@ -226,7 +231,7 @@ def _ops(s):
 # ---- module interface -------------------------------------------------------------------------------
 def nontrivial(f):
     op = f[0]
-    if op == "I":
+    if op in ("I", "B"):
         return False
     if op in ("H", "N", "A"):
         return any(o[0] == "S" or (o[0] == "W" and o[1] != ".") for o in _ops(f[-1]))
@@ -245,11 +250,15 @@ def classify(f, io):
         return "T:%dKiB:%s" % (int(f[3]) // 1024, out)
     if op == "K":
         return "K:iter%s:%s" % (f[4], out)
+    if op == "B":
+        return "B:marshalable=%s" % ("".join(io[1:3]) if len(io) >= 3 else "?")
     return op + ":" + out
 
 
 def same(f, io, mo):
     """implementation vs extracted model: identical observation text (digests, lengths, tails)"""
+    if f[0] == "B":
+        return True   # which path crypto/hmac takes is recorded (generator statistics), both are proved
     return io == mo
 
 
@@ -306,6 +315,35 @@ def predicate(f, io):
     op = f[0]
     if op == "I":
         return (io == ["ok", "32", "64"]), "Size/BlockSize are not 32/64"
+    if op == "B":
+        # a fact recorded, not a requirement: crypto/hmac is proved for both values (C04_hmac_both_reset_paths)
+        return (io[0] == "ok" and len(io) == 3), "could not determine whether sm3.SM3 is marshalable"
+    if op == "F":
+        if io[0] != "ok":
+            return False, "gmtls PRF: unexpected result " + io[0]
+        secret, seed, n = _unhex(f[2]), _unhex(f[3]) + _unhex(f[4]), int(f[5])
+        h = PyHMAC(secret)
+        a = h.write(seed).digest()
+        out = b""
+        while len(out) < n:
+            h.reset()
+            out += h.write(a + seed).digest()
+            h.reset()
+            a = h.write(a).digest()
+        return (_unhex(io[1]) == out[:n]), "gmtls prf12(sm3.New) differs from P_SM3 (RFC 5246 section 5 with HMAC-SM3)"
+    if op == "C":
+        if io[0] != "ok":
+            return False, "gmtls record MAC: unexpected result " + io[0]
+        key = _unhex(f[2])
+        got = io[1].split(",")
+        recs = f[3].split(",")
+        if len(got) != len(recs):
+            return False, "wrong number of MACs"
+        for k, (r, g) in enumerate(zip(recs, got)):
+            sq, hd, dt, _ = r.split(":")
+            if g != hmac_sm3(key, _unhex(sq) + _unhex(hd) + _unhex(dt)).hex():
+                return False, "record %d: tls10MAC over macSM3 is not HMAC-SM3(key, seq || header || data)" % k
+        return True, ""
     if op == "H":
         return _check_history(_SM3Obj(), lambda o: o.h.digest(), _ops(f[2]), io)
     if op == "A":
